@@ -328,6 +328,29 @@ static void holder_fn(void *arg)
     ABT_OK(ABT_thread_yield());
     ABT_OK(ABT_self_get_last_pool(&holder_pool));
 }
+/* a scheduler without any pool (it only looks at events): it cannot receive a migrating unit */
+static int zs_init(ABT_sched s, ABT_sched_config c)
+{
+    (void)s;
+    (void)c;
+    return ABT_SUCCESS;
+}
+static void zs_run(ABT_sched s)
+{
+    for (;;) {
+        ABT_bool stop = ABT_FALSE;
+        ABT_OK(ABT_sched_has_to_stop(s, &stop));
+        if (stop == ABT_TRUE)
+            break;
+        ABT_OK(ABT_xstream_check_events(s));
+        sim_yield();
+    }
+}
+static int zs_free(ABT_sched s)
+{
+    (void)s;
+    return ABT_SUCCESS;
+}
 static void run_c13_rules(void)
 {
     wl_rt rt;
@@ -341,9 +364,30 @@ static void run_c13_rules(void)
         ABT_OK(ABT_xstream_join(rt.xs[1]));
         rt.joined[1] = 1;
     }
+    /* optionally a running stream whose scheduler has no pool at all, placed before the other
+     * secondary streams in the list of streams (which is ordered by rank): it is never a
+     * migration target, neither by name nor for ABT_thread_migrate */
+    ABT_xstream zxs = ABT_XSTREAM_NULL;
+    ABT_sched zsched = ABT_SCHED_NULL;
+    if (plan_n(3) == 0) {
+        for (int e = 1; e < rt.nes; e++)
+            if (!rt.joined[e])
+                ABT_OK(ABT_xstream_set_rank(rt.xs[e], 20 + e));
+        ABT_sched_def zdef = { .type = ABT_SCHED_TYPE_ULT, .init = zs_init, .run = zs_run, .free = zs_free, .get_migr_pool = NULL };
+        ABT_OK(ABT_sched_create(&zdef, 0, NULL, ABT_SCHED_CONFIG_NULL, &zsched));
+        ABT_OK(ABT_xstream_create(zsched, &zxs));
+        sim_note("+poolless-stream ");
+    }
     ABT_thread t;
     int p0 = rt.es_first_pool[0];
     ABT_OK(ABT_thread_create(rt.pools[p0], holder_fn, NULL, ABT_THREAD_ATTR_NULL, &t));
+    if (zxs != ABT_XSTREAM_NULL) {
+        int rz = ABT_thread_migrate_to_sched(t, zsched);
+        SIM_CHECK(rz != ABT_SUCCESS, "migrate:poolless-target-accepted", "ABT_thread_migrate_to_sched naming a scheduler without pools was accepted");
+        rz = ABT_thread_migrate_to_xstream(t, zxs);
+        SIM_CHECK(rz != ABT_SUCCESS, "migrate:poolless-target-accepted", "ABT_thread_migrate_to_xstream naming a stream whose scheduler has no pool was accepted");
+        sim_count("c13.poolless_targets_refused", 1);
+    }
     /* same pool */
     int rc = ABT_thread_migrate_to_pool(t, rt.pools[p0]);
     SIM_CHECK(rc != ABT_SUCCESS, "migrate:same-pool-accepted", "a request naming the unit's current pool was accepted");
@@ -401,6 +445,11 @@ static void run_c13_rules(void)
         ABT_OK(ABT_xstream_join(x));
         ABT_OK(ABT_xstream_free(&x));
         sim_progress();
+    }
+    if (zxs != ABT_XSTREAM_NULL) {
+        ABT_OK(ABT_xstream_join(zxs));
+        ABT_OK(ABT_xstream_free(&zxs));
+        ABT_OK(ABT_sched_free(&zsched)); /* not automatic: created by ABT_sched_create without a configuration */
     }
     wl_rt_stop(&rt);
 }
